@@ -34,6 +34,7 @@ type c11plan struct {
 	Yield    int
 	CloseErr bool // the stream's Close reports an error although it closes
 	Blocking bool // the disconnect callback blocks until every call in flight has returned
+	Flood    bool // the peer sends 150 events instead of one and the subscriber does not read them until the calls have returned
 	describe string
 }
 
@@ -215,8 +216,14 @@ func c11run(p c11plan, seed int64) c11obs {
 				first = false
 				ev := rc.Frame(rc.Header{Magic: rc.Magic, ID: 7, Type: qnet.Event, Service: c11svc, Object: c11obj, Action: 200}, []byte("event-1"))
 				if p.Kind != "earlyreply" {
-					if !write(ev) {
-						return
+					n := 1
+					if p.Flood {
+						n = 150 // more than the subscription's queue holds
+					}
+					for k := 0; k < n; k++ {
+						if !write(ev) {
+							return
+						}
 					}
 				}
 			}
@@ -231,8 +238,8 @@ func c11run(p c11plan, seed int64) c11obs {
 	}()
 
 	ep = qnet.NewEndPoint(a)
-	client := bus.NewClient(bus.NewChannel(ep, bus.DefaultCap()))
 	callsReturned := make(chan struct{})
+	client := bus.NewClient(bus.NewChannel(ep, bus.DefaultCap()))
 	client.OnDisconnect(func(err error) {
 		atomic.AddInt32(&obs.callbacks, 1)
 		if p.Blocking {
@@ -250,6 +257,9 @@ func c11run(p c11plan, seed int64) c11obs {
 	evDone := make(chan struct{})
 	var evSeen int32
 	go func() {
+		if p.Flood {
+			<-callsReturned // a subscriber that is late reading its events
+		}
 		for range events {
 			atomic.AddInt32(&evSeen, 1)
 		}
@@ -507,7 +517,7 @@ func c11real(c *wk.Ctx, i int, rng *rand.Rand) {
 }
 
 func c11(c *wk.Ctx) {
-	c.Note("rule", "fault enumeration over one scenario: a real bus.Client on a harness stream, three OnDisconnect callbacks, one subscription, K in {1,3,8} concurrent calls answered by a scripted peer (one event, then each reply). The fault-free run counts the client's I/O operations (reads per fragment, one write per frame); plans: a fault (EOF, reset, short count + error; sticky) at every operation index, peer close after every byte count of its output, local Close() at every operation, a second fault at a later operation (thorough), a peer that stops reading after every byte count of the client's output (8-byte buffer: a Send is blocked mid-write) followed by a local Close() or a peer close, and the early-reply schedule (Send returns only after the reply was consumed by the reader); each under whole-read and fragmented-read delivery, a quarter with a stream whose Close reports an error, a third with a disconnect callback that blocks until the calls in flight have returned; stream stalled = unix, tcp, tls and fd-passing pipe connections to a peer that accepts and then stops reading: 1-5 calls with 1-4 MiB of arguments (a Send blocked in the kernel mid-message), then a local Close() or a close by the peer: every call fails, a later call fails, both disconnect callbacks fire once; stream real = the same oracle over unix and tcp with the real server: 1-6 calls parked inside the method body, then Server.Terminate() or the client closing its session. Oracle: every call returns (quiescence detector), success only with its own reply; without a fault every call succeeds; after the fault later calls fail, the events channel is closed, the disconnect callback ran exactly once. Distinct non-trivial = distinct plans whose fault was actually reached while a call or the subscription was pending.")
+	c.Note("rule", "fault enumeration over one scenario: a real bus.Client on a harness stream, three OnDisconnect callbacks, one subscription, K in {1,3,8} concurrent calls answered by a scripted peer (one event, then each reply). The fault-free run counts the client's I/O operations (reads per fragment, one write per frame); plans: a fault (EOF, reset, short count + error; sticky) at every operation index, peer close after every byte count of its output, local Close() at every operation, a second fault at a later operation (thorough), a peer that stops reading after every byte count of the client's output (8-byte buffer: a Send is blocked mid-write) followed by a local Close() or a peer close, and the early-reply schedule (Send returns only after the reply was consumed by the reader); each under whole-read and fragmented-read delivery, a quarter with a stream whose Close reports an error, a third with a disconnect callback that blocks until the calls in flight have returned, a fifth with 150 events sent to a subscriber that only starts reading once the calls have returned; stream stalled = unix, tcp, tls and fd-passing pipe connections to a peer that accepts and then stops reading: 1-5 calls with 1-4 MiB of arguments (a Send blocked in the kernel mid-message), then a local Close() or a close by the peer: every call fails, a later call fails, both disconnect callbacks fire once; stream real = the same oracle over unix and tcp with the real server: 1-6 calls parked inside the method body, then Server.Terminate() or the client closing its session. Oracle: every call returns (quiescence detector), success only with its own reply; without a fault every call succeeds; after the fault later calls fail, the events channel is closed, the disconnect callback ran exactly once. Distinct non-trivial = distinct plans whose fault was actually reached while a call or the subscription was pending.")
 	type cfg struct{ K, Frag int }
 	cfgs := []cfg{{1, 0}, {1, 7}, {3, 0}, {3, 5}}
 	if c.Thorough() {
@@ -562,8 +572,9 @@ func c11(c *wk.Ctx) {
 		p.Yield = (i / len(plans)) % 3
 		p.CloseErr = rng.Intn(4) == 0
 		p.Blocking = rng.Intn(3) == 0
+		p.Flood = rng.Intn(5) == 0 && p.Kind != "earlyreply" && !p.Blocking
 		obs := c11run(p, rng.Int63())
-		detail := map[string]interface{}{"plan": p.String(), "close_reports_error": p.CloseErr, "blocking_disconnect_callback": p.Blocking, "results": obs.results, "callbacks": obs.callbacks, "events": obs.eventsEnd, "late_call": obs.lateCall, "fault_reached": obs.faultHit}
+		detail := map[string]interface{}{"plan": p.String(), "close_reports_error": p.CloseErr, "blocking_disconnect_callback": p.Blocking, "event_flood_with_a_late_reader": p.Flood, "results": obs.results, "callbacks": obs.callbacks, "events": obs.eventsEnd, "late_call": obs.lateCall, "fault_reached": obs.faultHit}
 		key := func(k string) string { return k + "/fault=" + p.Kind }
 		if obs.verdict == stuck.Stuck {
 			detail["dump"] = clipDump(obs.dump)
@@ -609,7 +620,7 @@ func c11(c *wk.Ctx) {
 				return
 			}
 		}
-		if !faulted && p.Kind != "earlyreply" && obs.eventsSeen != 1 {
+		if !faulted && p.Kind != "earlyreply" && !p.Flood && obs.eventsSeen != 1 {
 			c.Viol("plan", i, key("event=lost"), fmt.Sprintf("%d events delivered to the subscriber, 1 was sent", obs.eventsSeen), detail)
 			return
 		}
